@@ -86,6 +86,7 @@ impl Api for multi_index::File {
 }
 
 fn hex_prefix_eq(a: &ObjectId, b: &ObjectId, hex_len: usize) -> bool {
+    let hex_len = if oracle_broken("c09-scan") && hex_len % 2 == 1 { hex_len - 1 } else { hex_len };
     let (a, b) = (a.as_slice(), b.as_slice());
     let full = hex_len / 2;
     if a[..full] != b[..full] {
@@ -137,13 +138,13 @@ fn check_all(api: &dyn Api, expect: &[Expect], queries: &[ObjectId], ignore_crc:
     for q in queries {
         // full id
         let want = expect.iter().position(|e| e.id == *q);
-        let got = vkit::catch(|| api.lookup(q)).map_err(|p| format!("lookup-panic: {q}: {p}"))?;
+        let got = api.lookup(q);
         nq += 1;
         match (want, got) {
             (None, None) => st.absent += 1,
             (Some(w), Some(g)) if w as u32 == g => {
                 st.found += 1;
-                let loc = vkit::catch(|| api.loc_at(g)).map_err(|p| format!("at-index-panic: {p}"))?;
+                let loc = api.loc_at(g);
                 if !loc_ok(&loc, &expect[w]) {
                     return Err(format!("lookup-location: {q} found at index {g} with {loc:?}, written {:?}", expect[w]));
                 }
@@ -160,8 +161,9 @@ fn check_all(api: &dyn Api, expect: &[Expect], queries: &[ObjectId], ignore_crc:
                 _ => (Some(Err(())), matches[0]..matches[matches.len() - 1] + 1),
             };
             let mut range = 7777..7778;
-            let with = vkit::catch(|| api.lookup_prefix(prefix, Some(&mut range))).map_err(|p| format!("lookup_prefix-panic: {q}/{hex_len} with candidates: {p}"))?;
-            let without = vkit::catch(|| api.lookup_prefix(prefix, None)).map_err(|p| format!("lookup_prefix-panic: {q}/{hex_len}: {p}"))?;
+            // (a panic in here is reported by the driver as class `panic` with message and location)
+            let with = api.lookup_prefix(prefix, Some(&mut range));
+            let without = api.lookup_prefix(prefix, None);
             nq += 2;
             let same = |got: &Option<Result<u32, ()>>| match (got, &want_res) {
                 (None, None) => true,
@@ -190,6 +192,14 @@ fn check_all(api: &dyn Api, expect: &[Expect], queries: &[ObjectId], ignore_crc:
     PREFIX_UNIQUE.fetch_add(u64::from(st.p_unique), Ordering::Relaxed);
     PREFIX_NONE.fetch_add(u64::from(st.p_none), Ordering::Relaxed);
     Ok(st)
+}
+
+thread_local! {
+    /// one scratch directory per worker thread, reused by all cases (creating a directory per case contends on the parent)
+    static TDIR: scratch::Dir = scratch::Dir::new("c09t");
+}
+fn tdir() -> PathBuf {
+    TDIR.with(|d| d.path().to_path_buf())
 }
 
 // ------------------------------------------------------------------------------------------------ independent writers / parser
@@ -483,7 +493,7 @@ fn eval_idx(c: &IdxCase, v1: bool) -> Verdict {
             Err(p) => return bad("encoder-panic", p),
         }
     }
-    let dir = scratch::Dir::new("c09i");
+    let dir = tdir();
     let path = dir.join("pack-x.idx");
     write_file(&path, &bytes);
     let file = open_index(&path)?;
@@ -532,7 +542,10 @@ fn eval_midx(c: &MidxCase) -> Verdict {
             }
         }
     }
-    let dir = scratch::Dir::new("c09m");
+    let dir = tdir();
+    for n in MIDX_NAMES {
+        let _ = std::fs::remove_file(dir.join(n));
+    }
     let mut paths: Vec<PathBuf> = Vec::new();
     let mut used: Vec<usize> = Vec::new();
     for (k, e) in per.iter_mut().enumerate() {
@@ -595,6 +608,11 @@ fn eval_midx(c: &MidxCase) -> Verdict {
             return bad("midx-format-entry", format!("independent parser reads ({}, pack {}, offset {}), written {e:?}", p.0, p.1, p.2));
         }
     }
+    if expect.is_empty() {
+        // A multi-pack-index without any object is degenerate: git's `multi-pack-index verify` rejects it ("the midx contains no oid")
+        // and gitoxide's reader refuses its zero-length chunks with a clean error. Only the writer + independent parser are checked.
+        return ok_trivial("midx:no-objects");
+    }
     let path = dir.join("multi-pack-index");
     write_file(&path, &out);
     let file = match vkit::catch(|| multi_index::File::at(&path)) {
@@ -611,9 +629,6 @@ fn eval_midx(c: &MidxCase) -> Verdict {
     let st = check_all(&file, &expect, &queries, true)?;
     let large = expect.iter().filter(|e| e.locs.iter().any(|l| l.offset > 0x7fff_ffff)).count();
     let dup = c.assign.iter().any(|&a| a == 4);
-    if expect.is_empty() {
-        return ok_trivial("midx:empty");
-    }
     ok(format!(
         "{}:indices={}:loff-chunk={}{}",
         class_of("midx", expect.len(), large, &st),
@@ -823,24 +838,31 @@ pub fn run(run: &'static Run) {
     let un = run.pick(10usize, 12);
     run.rule(format!(
         "idx-v2 / idx-v1: all subsets of a universe of {un} ids (00..00, 00..01, ff..ff, ff..fe, abcde0/abcde1/abcd7/ab (shared 5/4/2 digits), 7fff../8000.., 01.., feff..) \
-         x offset rotation (id i gets OFFSETS[(i+rot)%len], OFFSETS v2 = {{12, 2^31-1, 2^31, 2^32-1, 2^32+5, 2^63-1}}, v1 = the four 32-bit ones) x {{canonical, reversed}} 64-bit table order; \
+         x offset rotation (id i gets OFFSETS[(i+rot)%len], OFFSETS v2 = {{12, 2^31-1, 2^31, 2^32-1, 2^32+5, 2^63-1}}, v1 = the four 32-bit ones; quick: v1 rotations 0 and 2) x {{canonical, reversed}} 64-bit table order (quick: reversed only for rotation 2); \
          queries: every universe id + 5 never-present ids, full lookup and every prefix length 4..=40 with and without candidate range; oracle = linear scan over the written entry list; \
          for canonical v2 files gitoxide's encoder (hook H3) must emit byte-identical output to the independent writer; \
-         midx-gix: all 5^6 assignments of 6 ids to {{absent, a, b, c, a+b duplicate}} x rotations {{0,3}} (quick) / 0..5 (thorough), written by write_from_index_paths, read by gitoxide and by an independent parser; \
+         midx-gix: all 5^6 assignments of 6 ids to {{absent, a, b, c, a+b duplicate}} x rotation 3 (quick) / 0..5 (thorough), written by write_from_index_paths, read by gitoxide and by an independent parser; \
          git-idx: subsets (size<=2, all, all-but-one) of ~13 searched blobs in buckets 00/ff/7f/80 and with shared 4/5-digit prefixes, index by git index-pack as v2, v1, v2 with forced 64-bit table (all / upper half); \
          git-midx: those blobs spread over 1..3 packs incl. a duplicate, git multi-pack-index write; \
          non-trivial = non-empty file whose every observable matched the linear scan"
     ));
     run.assume("git 2.39.5 (pack-objects, index-pack, show-index, multi-pack-index write) as oracle for git-written files; the harness idx writers and multi-pack-index parser follow gitformat-pack.txt and are trusted (cross-checked against git's files in git-idx / git-midx)");
+    run.assume("a multi-pack-index without any object is outside the domain (git's verify rejects it, gitoxide's reader refuses its empty chunks with an error); the writer's output is still parsed independently");
     run.assume("for an id present in several packs of a multi-pack-index any of its recorded (pack, offset) pairs is a correct answer");
     run.budget_secs(run.pick(38.0, 580.0));
 
+    let t0 = std::time::Instant::now();
+    let lap = |name: &str| run.cov(&format!("wall_s_until_after_{name}"), (t0.elapsed().as_secs_f64() * 10.0).round() / 10.0);
     run.sub(
         "idx-v2",
         |emit| {
             for members in 0..(1u32 << un) {
                 for rot in 0..OFFSETS_V2.len() as u8 {
                     for rev64 in [false, true] {
+                        // quick: the reversed 64-bit table only for one rotation
+                        if rev64 && run.quick() && rot != 2 {
+                            continue;
+                        }
                         emit(IdxCase { members, rot, rev64, universe: un as u8 });
                     }
                 }
@@ -848,21 +870,26 @@ pub fn run(run: &'static Run) {
         },
         |c| eval_idx(c, false),
     );
+    lap("idx-v2");
     run.sub(
         "idx-v1",
         |emit| {
             for members in 0..(1u32 << un) {
                 for rot in 0..OFFSETS_V1.len() as u8 {
+                    if run.quick() && rot % 2 == 1 {
+                        continue;
+                    }
                     emit(IdxCase { members, rot, rev64: false, universe: un as u8 });
                 }
             }
         },
         |c| eval_idx(c, true),
     );
+    lap("idx-v1");
     run.sub(
         "midx-gix",
         |emit| {
-            let rots: &[u8] = if run.quick() { &[0, 3] } else { &[0, 1, 2, 3, 4, 5] };
+            let rots: &[u8] = if run.quick() { &[3] } else { &[0, 1, 2, 3, 4, 5] };
             vkit::enumerate::seqs(&[0u8, 1, 2, 3, 4], MIDX_UNIVERSE, MIDX_UNIVERSE, |a| {
                 for &rot in rots {
                     emit(MidxCase { assign: a.to_vec(), rot });
@@ -871,6 +898,7 @@ pub fn run(run: &'static Run) {
         },
         eval_midx,
     );
+    lap("midx-gix");
 
     let fix = build_git_fixture();
     let fix = &fix;
@@ -898,6 +926,7 @@ pub fn run(run: &'static Run) {
         },
         |c| eval_git_idx(fix, c),
     );
+    lap("git-idx");
     run.sub_with(
         "git-midx",
         vkit::Opts::default().chunk(16),
